@@ -16,7 +16,10 @@ from concurrent.futures import ThreadPoolExecutor
 import vlib
 
 MANIFEST = dict(
-    level=("proof", "Twenty-seven Coq theorems (incl. never_two_bound: the first clause said directly; the search "
+    level=("proof", "Thirty Coq theorems (incl. the log file a background life creates is accepted by the next life for "
+           "every inherited umask — open_logfile's own text is run by the fact generator —, live: kill-point restarts and "
+           "start/stop cycles in background mode with the daemon's own log file under umask 0/022/077 and with --syslog; "
+           "never_two_bound: the first clause said directly; the search "
            "semantics over an observed program text is the proved transition system on the expected one; the lock and "
            "socket descriptors survive daemonize_fini for every initial descriptor table, and the pre-repair program "
            "refuted with 0-2 closed).  Thirteen over an executable model of munged's start-up/shutdown program (file "
@@ -58,6 +61,7 @@ MANIFEST = dict(
               "trace-equivalence with the extracted program + live race / crash-injection tests")
 
 FINDING_KEY = "F-C15-unlink: clean stop between another start's open(lock) and F_SETLK"
+SYSLOG_FINDING_KEY = "F-C15-syslog-closes-stderr: --syslog in background mode frees descriptor 2 after sanitize_std_fds"
 TRACE = "trace=%file,bind,listen,fcntl,close,unlink,unlinkat,openat,socket,rename,write"
 INJECT_SET = "openat,unlink,bind,listen,fcntl,close,socket"
 PHASE = {"up": "start-up", "down": "shutdown", "serve": "service"}
@@ -103,8 +107,27 @@ class Dir:
         if foreground:
             a.append("-F")
         a += ["-S", self.sock, "--key-file=" + self.key, "--pid-file=" + self.pid, "--seed-file=" + self.seed,
-              "--log-file=" + self.log, "--group-update-time=-1", "--num-threads=1"] + list(extra)
+              "--syslog" if getattr(self, "syslog", False) else "--log-file=" + self.log,
+              "--group-update-time=-1", "--num-threads=1"] + list(extra)
         return a
+
+    def deployed(self, umask, syslog=False):
+        """background-mode use: munged creates and inherits its own log file; the invoking shell's umask is `umask`"""
+        self.err = os.path.join(self.d, "stderr")
+        self.umask = umask
+        self.syslog = syslog
+        return self
+
+    def modes(self):
+        """{name: 'NNNN/size'} of the files a life leaves for the next one"""
+        out = {}
+        for n_, p_ in list(self.names().items()) + [("log", self.log)]:
+            try:
+                st_ = os.lstat(p_)
+                out[n_] = "%04o/%d" % (st_.st_mode & 0o7777, st_.st_size)
+            except OSError:
+                pass
+        return out
 
     def names(self):
         return {"lock": self.lock, "sock": self.sock, "pid": self.pid, "seed": self.seed}
@@ -161,8 +184,12 @@ class Dir:
 
 def popen(D, argv, **kw):
     """start a process with stderr appended to the directory's log (foreground daemons log to stderr)"""
-    lf = open(D.log, "ab")
+    # D.err set: the log file is the daemon's own business (background mode: created by munged, inherited by the next
+    # life); the start command's stderr goes elsewhere
+    lf = open(getattr(D, "err", None) or D.log, "ab")
     try:
+        if getattr(D, "umask", None) is not None:
+            kw.setdefault("umask", D.umask)
         return subprocess.Popen(argv, stdout=subprocess.DEVNULL, stderr=lf, **kw)
     finally:
         lf.close()
@@ -615,15 +642,21 @@ def scenario_loser_trace(ctx, exe, tag):
 # ---------------------------------------------------------------------------------------------------
 # (c) crash points
 # ---------------------------------------------------------------------------------------------------
-def calibrate(ctx, exe):
+def calibrate(ctx, exe, background=False):
     """one life under strace with the injectable syscall set.  strace's inject `when=K` counts per syscall and
     per tracee, so a kill point is (syscall, K-th invocation by the main process).  Returns the kill points
     spanning start-up (from the open of the lock file to one call past the pid-file write) and shutdown (from
     the unlink of the socket to one call past the unlink of the pid file), the write() into the pid file and the
     write() into the seed file included."""
-    D = Dir(ctx, "cal")
+    D = Dir(ctx, "calb" if background else "cal")
+    if background:
+        D.deployed(0o22)
     out = os.path.join(D.d, "tr")
-    p = popen(D, ["strace", "-f", "-y", "-o", out, "-e", "trace=" + INJECT_SET + ",write"] + D.argv(exe))
+    # background: the start command is a tracee too and `when=` counts in every tracee, so only the calls on the four
+    # names are traced and counted (-P): the start command makes none, the daemon (its forked child) makes them all
+    only = sum([["-P", x] for x in (D.lock, D.sock, D.pid, D.seed)], []) if background else []
+    p = popen(D, ["strace", "-f", "-y", "-o", out] + only + ["-e", "trace=" + INJECT_SET + ",write"]
+              + D.argv(exe, foreground=not background))
     try:
         if not wait_serving(D):
             return None
@@ -632,6 +665,12 @@ def calibrate(ctx, exe):
         p.wait(timeout=8)
         lines = open(out).read().splitlines()
         main = int(lines[0].split()[0])
+        if background:
+            # the daemon is the forked child: the process that binds the socket; strace counts its calls from its birth
+            bl = [l for l in lines if re.match(r"^\d+\s+openat\(", l) and D.lock in l]
+            if not bl or len({l.split()[0] for l in lines if re.match(r"^\d+\s+\w+\(", l)}) != 1:
+                return None             # some other process touched the names: the counts would not be the daemon's
+            main = int(bl[0].split()[0])
         calls = []          # (phase, syscall, ordinal, on_name)
         ords = {}
         nwrite = 0
@@ -675,20 +714,29 @@ def scenario_crash(ctx, exe, spec):
     """spec: tag, phase ('up'|'down'|'serve'), sc, n (kill on entering the n-th invocation of syscall sc by the
     daemon).  Kill, then plain restart without --force."""
     D = Dir(ctx, spec["tag"])
+    bg = bool(spec.get("background"))
+    if bg:
+        D.deployed(spec.get("umask", 0o22))
     fails = []
     try:
         if spec["phase"] == "serve":
-            a = popen(D, D.argv(exe))
+            a = popen(D, D.argv(exe, foreground=not bg))
             if not wait_serving(D):
                 return ["daemon did not reach service before the kill: " + tail(D.log, 300)], {}
-            os.kill(a.pid, signal.SIGKILL)
-            a.wait()
+            if bg:
+                a.wait(timeout=RESTART_BOUND)
+                D.killall()
+            else:
+                os.kill(a.pid, signal.SIGKILL)
+                a.wait()
         else:
             only = []
             if spec["sc"] == "write":
                 only = ["-P", D.pid, "-P", D.seed]
+            if bg:
+                only = sum([["-P", x] for x in (D.lock, D.sock, D.pid, D.seed)], [])
             a = popen(D, ["strace", "-f", "-o", "/dev/null"] + only + ["-e", "trace=" + spec["sc"], "-e",
-                          "inject=%s:signal=KILL:when=%d" % (spec["sc"], spec["n"])] + D.argv(exe))
+                          "inject=%s:signal=KILL:when=%d" % (spec["sc"], spec["n"])] + D.argv(exe, foreground=not bg))
             reached = wait_for(lambda: a.poll() is not None or (os.path.exists(D.pid) and canary(D.sock) is None), 6.0)
             if a.poll() is None:
                 if spec["phase"] == "down":
@@ -713,6 +761,9 @@ def scenario_crash(ctx, exe, spec):
                 pass
         where = "SIGKILL on entering %s #%s of %s" % (spec.get("sc"), spec.get("n"), PHASE[spec["phase"]]) \
             if spec.get("sc") else "SIGKILL during service"
+        if bg:
+            where += " of a munged running in the background (umask %03o, its own log file)" % D.umask
+            left = D.modes()
         # plain restart without --force: must come up and serve, or at least exit, within the bound
         b = popen(D, D.argv(exe, foreground=False))
         try:
@@ -728,7 +779,7 @@ def scenario_crash(ctx, exe, spec):
                             [n_ for n_ in ("lock", "sock", "pid") if os.path.lexists(D.names()[n_])]))
         elif rc != 0:
             fails.append("after %s (files left: %s) a start without --force failed "
-                         "(exit %s): %s" % (where, left, rc, tail(D.log, 300)))
+                         "(exit %s): %s" % (where, left, rc, tail(getattr(D, "err", None) or D.log, 300)))
         else:
             wait_serving(D, 3.0)
             bad, _, ps = check_serving_state(D, "restart after %s (files left: %s)" % (where, left))
@@ -748,6 +799,18 @@ def scenario_crash(ctx, exe, spec):
                             fails.append("restart after %s, then clean stop: the seed file is empty" % where)
                     except OSError:
                         fails.append("restart after %s, then clean stop: there is no seed file" % where)
+                    if bg and not fails:
+                        # a third life on what the second one left (it may be the one that created the log file)
+                        left2 = D.modes()
+                        c = popen(D, D.argv(exe, foreground=False))
+                        try:
+                            rc3 = c.wait(timeout=RESTART_BOUND)
+                        except subprocess.TimeoutExpired:
+                            c.kill()
+                            rc3 = "timeout"
+                        if rc3 != 0 or not wait_serving(D, RESTART_BOUND):
+                            fails.append("restart after %s, clean stop, then another start without --force on what that life "
+                                         "left (mode/size: %s): it failed (exit %s): %s" % (where, left2, rc3, tail(D.err, 300)))
         return fails, {"left": left}
     finally:
         D.remove()
@@ -1241,6 +1304,55 @@ def scenario_cycles(ctx, exe, spec):
             if fails:
                 break
         return fails, {"seed_after_each_cycle": [(i[0], i[2], i[3][:12]) if i else None for i in ids]}
+    finally:
+        D.remove()
+
+
+def scenario_bg_cycles(ctx, exe, spec):
+    """spec: tag, cycles, umask, syslog.  The deployment mode: `munged` (background) with --log-file (or --syslog) on one
+    persistent set of paths, invoked under the given umask; every life inherits the log, seed (and whatever else) the
+    previous one left.  Every start must succeed and serve, every stop must be clean and renew the seed."""
+    D = Dir(ctx, spec["tag"]).deployed(spec["umask"], spec.get("syslog", False))
+    fails, hist = [], []
+    mode = "in the background with %s, umask %03o" % ("--syslog" if spec.get("syslog") else "--log-file", spec["umask"])
+    try:
+        prev = None
+        for c in range(1, spec["cycles"] + 1):
+            what = "life %d of %d on one set of paths (%s)" % (c, spec["cycles"], mode)
+            left = D.modes()
+            a = popen(D, D.argv(exe, foreground=False))
+            try:
+                rc = a.wait(timeout=RESTART_BOUND)
+            except subprocess.TimeoutExpired:
+                a.kill()
+                rc = "timeout"
+            if rc != 0:
+                fails.append("%s: the start without --force on what the previous life left (mode/size: %s) failed (exit %s): %s"
+                             % (what, left, rc, tail(D.err, 300).strip()))
+                break
+            if not wait_serving(D, RESTART_BOUND):
+                fails.append("%s: started (exit 0) but does not serve" % what)
+                break
+            bad, _, ps = check_serving_state(D, what)
+            fails += bad
+            for q in ps:
+                os.kill(q, signal.SIGTERM)
+            if not wait_for(lambda: not D.procs(), 20.0):
+                fails.append("%s: did not exit within 20 s of SIGTERM" % what)
+                break
+            for n_ in ("sock", "lock", "pid"):
+                if os.path.lexists(D.names()[n_]):
+                    fails.append("%s: after the clean stop the %s file still exists" % (what, n_))
+            after = seed_id(D.seed)
+            if after is None or after[2] == 0:
+                fails.append("%s: after the clean stop there is no (or an empty) seed file" % what)
+            elif prev is not None and (after[0], after[1], after[3]) == (prev[0], prev[1], prev[3]):
+                fails.append("%s: after the clean stop the seed file is the old one" % what)
+            prev = after
+            hist.append(D.modes())
+            if fails:
+                break
+        return fails, {"left_after_each_life": hist}
     finally:
         D.remove()
 
@@ -2044,14 +2156,29 @@ def _run_live(ctx, exe, oracle, concrete, corr):
             for sc, n in down:
                 cspecs.append({"tag": "cd-%s%d" % (sc, n), "phase": "down", "sc": sc, "n": n})
             cspecs.append({"tag": "cs", "phase": "serve", "sc": None, "n": None})
+        # the same in the deployment mode: background, munged's own log file, pid/seed/log of the killed life inherited
+        # by the next, under the invoking shell's umask 0 / 022 / 077 (quick: every third kill point + the two writes)
+        calb = calibrate(ctx, exe, background=True)
+        if calb is None:
+            concrete.append(("calibration run (background start, SIGTERM) under strace failed", {"scenario": "crash"}))
+        else:
+            ctx.cov["crash_kill_points_background"] = {k: ["%s#%d" % x for x in v] for k, v in calb.items()}
+            pts = [("up", sc, n) for sc, n in calb["up"]] + [("down", sc, n) for sc, n in calb["down"]]
+            if not ctx.thorough:
+                pts = [pt for i, pt in enumerate(pts) if i % 3 == 0 or pt[1] == "write"]
+            for i, (ph, sc, n) in enumerate(pts):
+                cspecs.append({"tag": "cb%d" % i, "phase": ph, "sc": sc, "n": n, "background": True,
+                               "umask": (0, 0o22, 0o77)[i % 3]})
+            for i, um in enumerate((0, 0o22, 0o77)):
+                cspecs.append({"tag": "cbs%d" % i, "phase": "serve", "sc": None, "n": None, "background": True, "umask": um})
     if cspecs:
-        with ThreadPoolExecutor(max_workers=6) as ex:
+        with ThreadPoolExecutor(max_workers=8) as ex:
             res = list(ex.map(lambda s: (s, scenario_crash(ctx, exe, s)), cspecs))
         lefts = {}
         for s, (fails, fct) in res:
-            ctx.count(("crash", s["phase"], s["sc"], s["n"]))
+            ctx.count(("crash", s["phase"], s["sc"], s["n"], s.get("background"), s.get("umask")))
             dist["crash_" + s["phase"]] = dist.get("crash_" + s["phase"], 0) + 1
-            lefts["%s:%s#%s" % (s["phase"], s["sc"], s["n"])] = ",".join("%s=%s" % (n, v) for n, v in sorted(fct.get("left", {}).items()))
+            lefts["%s%s:%s#%s" % ("bg%03o:" % s["umask"] if s.get("background") else "", s["phase"], s["sc"], s["n"])] = ",".join("%s=%s" % (n, v) for n, v in sorted(fct.get("left", {}).items()))
             if fails:
                 sp = {k: v for k, v in s.items() if k != "tag"}
                 concrete.append((fails[0], {"scenario": "crash", "spec": sp, "all_failures": fails,
@@ -2088,22 +2215,42 @@ def _run_live(ctx, exe, oracle, concrete, corr):
         ctx.log("closed descriptors done: %d scenarios, %d with failures" % (len(gspecs), sum(1 for _, (f, _) in res if f)))
     # ---- (e) seed file: cycles and pre-made seed states
     especs = []
-    if replay and replay.get("scenario") in ("cycles", "seedstate"):
+    if replay and replay.get("scenario") in ("cycles", "seedstate", "bgcycles"):
         especs = [dict(replay["spec"], tag="se0", kind=replay["scenario"])]
     elif replay is None:
         sb = seed_bytes_fact()
         especs.append({"tag": "cy", "kind": "cycles", "cycles": 5 if ctx.thorough else 3})
+        for um in (0, 0o22, 0o77):
+            especs.append({"tag": "bc%o" % um, "kind": "bgcycles", "cycles": 5 if ctx.thorough else 3, "umask": um})
+        especs.append({"tag": "bcs", "kind": "bgcycles", "cycles": 3, "umask": 0o22, "syslog": True})
         for sz in ([0, 1, sb - 1, sb, sb + 1] + ([sb // 2, 4 * sb] if ctx.thorough else [])):
             especs.append({"tag": "ss%d" % sz, "kind": "seedstate", "size": sz})
     if especs:
-        with ThreadPoolExecutor(max_workers=6) as ex:
-            res = list(ex.map(lambda sp: (sp, (scenario_cycles if sp["kind"] == "cycles" else scenario_seedstate)(ctx, exe, sp)),
-                              especs))
+        with ThreadPoolExecutor(max_workers=10) as ex:
+            fn = {"cycles": scenario_cycles, "seedstate": scenario_seedstate, "bgcycles": scenario_bg_cycles}
+            res = list(ex.map(lambda sp: (sp, fn[sp["kind"]](ctx, exe, sp)), especs))
         for sp, (fails, fct) in res:
-            ctx.count((sp["kind"], sp.get("cycles"), sp.get("size")))
+            ctx.count((sp["kind"], sp.get("cycles"), sp.get("size"), sp.get("umask"), sp.get("syslog")))
+            hist = fct.get("left_after_each_life") or []
+            if oracle and sp["kind"] == "bgcycles" and not sp.get("syslog") and hist and "log" in hist[0]:
+                rc_, out_, _ = vlib.run_lines([oracle], ["L %d" % sp["umask"]])
+                m_ = re.match(r"L created=(\d+) accepted=(\d)", out_[0]) if rc_ == 0 and out_ else None
+                if m_ and m_.group(1) != hist[0]["log"].split("/")[0]:
+                    corr.append(("a munged started in the background under umask %03o creates its log file with mode %s; "
+                                 "StartLogModel says %s" % (sp["umask"], hist[0]["log"].split("/")[0], m_.group(1)),
+                                 {"obligation": "correspondence StartLogModel.log_created_mode ~ stat(log file)",
+                                  "scenario": "bgcycles", "spec": {k: v for k, v in sp.items() if k not in ("tag", "kind")}}))
             dist[sp["kind"]] = dist.get(sp["kind"], 0) + 1
             if fails:
                 spx = {k: v for k, v in sp.items() if k not in ("tag", "kind")}
+                if sp.get("syslog") and any("lock file is held by 0" in f for f in fails):
+                    # log_close_file() closes stderr; without /dev/log the lock file lands on descriptor 2 and
+                    # daemonize_fini's dup2 drops the lock (proposed repair: seeded/fixes/C15-syslog-closes-stderr.diff)
+                    ctx.violation(fails[0] + " (munged --syslog in background mode: log_close_file() frees descriptor 2, the lock "
+                                  "file is opened on it where /dev/log is absent, daemonize_fini's dup2 closes it)",
+                                  {"finding_key": SYSLOG_FINDING_KEY, "scenario": sp["kind"], "spec": spx,
+                                   "all_failures": fails, "facts": fct}, found_input=True)
+                    continue
                 concrete.append((fails[0], {"scenario": sp["kind"], "spec": spx, "all_failures": fails, "facts": fct,
                                             "how": "cycles: munged -F ...; wait for service; SIGTERM; stat + sha256 of the seed "
                                                    "file; again on the same paths.  seedstate: head -c <size> /dev/urandom > seed; "
